@@ -21,11 +21,12 @@ EXPLANATION = (
     "interval arithmetic as a fallback); I the inverse pairs very/somewhat and extremely/seldom and the involution not(not(x)) = x, "
     "by composing the resolved terms. Violations are definite disagreements only; proven / undecided counts are reported. "
     "Elementwise safety is C02/V1; operators only after scalar() coercion, no re-interpreting views (V8); kernels are pure (K1)"
+    "; every kernel returns the broadcast shape of its operand and never reduces over, indexes away or concatenates along its dimensions (V9 on the shape lattice)"
 )
 ASSUMPTIONS = ["real arithmetic (rounding not modelled); degrees in [0,1]; the transcription of the documented formulas in HEDGES is faithful"]
 LEVEL_SCOPE = ("Decides the listed clauses for every order type (piece) over real arithmetic, reporting only definite disagreements; floating-point "
                "rounding and the clauses listed as undecided are not decided.")
-FLOORS = {"V10": 2, "K1": 6, "F": 6, "X": 6, "R": 6, "M": 6, "O": 2, "I": 5, "V1": 6, "V8": 6}
+FLOORS = {"V9": 24, "V10": 2, "K1": 6, "F": 6, "X": 6, "R": 6, "M": 6, "O": 2, "I": 5, "V1": 6, "V8": 6}
 
 HEDGES: dict[str, dict] = {
     "Any": {"cases": [(None, "1")], "fix": {0: 1, 1: 1}, "direction": 0},
@@ -65,6 +66,9 @@ def run(check: Check) -> None:
 
     if not numpy_pitfalls(check, "V10", {"fuzzylite/hedge.py"}):
         return  # the kernels are not the elementwise expressions the interpreters assume
+    from .c02 import shapes
+
+    shapes(check, only_kernels_of=("Hedge",))  # V9: every kernel returns the broadcast shape of its operands and never mixes their rows / sample points
     from ..ordertype import describe, flatten, spec_term
 
     p = check.program
